@@ -550,6 +550,16 @@ where
             channel_mask,
         })
     }
+
+    /// Number of input frames needed to produce the next chunk, given that the step
+    /// between output frames goes linearly from 1/resample_ratio to 1/target_ratio.
+    fn calc_needed_input_size(&self) -> usize {
+        let t_ratio = 1.0 / self.resample_ratio;
+        let t_ratio_end = 1.0 / self.target_ratio;
+        let frames = self.chunk_size as f64;
+        let advance = frames * t_ratio + (t_ratio_end - t_ratio) * (frames + 1.0) / 2.0;
+        (self.last_index + advance + POLYNOMIAL_LEN_U as f64).ceil() as usize
+    }
 }
 
 impl<T> Resampler<T> for FastFixedOut<T>
@@ -723,10 +733,7 @@ where
         let input_frames_used = self.needed_input_size;
         self.last_index = idx - self.current_buffer_fill as f64;
         self.resample_ratio = self.target_ratio;
-        self.needed_input_size = (self.last_index as f32
-            + self.chunk_size as f32 / self.resample_ratio as f32
-            + POLYNOMIAL_LEN_U as f32)
-            .ceil() as usize;
+        self.needed_input_size = self.calc_needed_input_size();
         trace!(
             "Resampling channels {:?}, {} frames in, {} frames out. Next needed length: {} frames, last index {}",
             active_channels_mask,
@@ -774,11 +781,7 @@ where
                 self.resample_ratio = new_ratio;
             }
             self.target_ratio = new_ratio;
-            self.needed_input_size = (self.last_index as f32
-                + self.chunk_size as f32
-                    / (0.5 * self.resample_ratio as f32 + 0.5 * self.target_ratio as f32))
-                .ceil() as usize
-                + POLYNOMIAL_LEN_U;
+            self.needed_input_size = self.calc_needed_input_size();
             Ok(())
         } else {
             Err(ResampleError::RatioOutOfBounds {
